@@ -1208,7 +1208,10 @@ def store(
                 lock=lock,
                 return_stored=return_stored,
                 load_stored=load_stored,
-                token="store-map",
+                # A store is an effect on this particular target object: two targets
+                # with equal contents must not share (and so deduplicate) their tasks
+                name="store-map-"
+                + tokenize(s, t, id(t), r, lock, return_stored, load_stored),
                 meta=s._meta,
             )
         )
